@@ -6,6 +6,7 @@ import asyncio
 from typing import Any, Awaitable, Callable, List, Optional, Tuple, Union
 
 from lark import Token, Tree
+from lark.exceptions import VisitError
 
 from ahbicht.content_evaluation.evaluationdatatypes import EvaluatableData
 from ahbicht.content_evaluation.fc_evaluators import FcEvaluator
@@ -14,7 +15,10 @@ from ahbicht.content_evaluation.token_logic_provider import TokenLogicProvider
 from ahbicht.expressions import InvalidExpressionError
 from ahbicht.expressions.ahb_expression_evaluation import evaluate_ahb_expression_tree
 from ahbicht.expressions.condition_expression_parser import extract_categorized_keys_from_tree
-from ahbicht.expressions.expression_resolver import parse_expression_including_unresolved_subexpressions
+from ahbicht.expressions.expression_resolver import (
+    AhbExpressionResolverTransformer,
+    parse_expression_including_unresolved_subexpressions,
+)
 from ahbicht.models.content_evaluation_result import ContentEvaluationResult
 
 
@@ -41,6 +45,15 @@ async def is_valid_expression(
             return False, str(syntax_error)
     elif isinstance(expression_or_tree, Tree):
         tree = expression_or_tree
+        if any(tree.scan_values(lambda value: isinstance(value, Token) and value.type == "CONDITION_EXPRESSION")):
+            # The tree comes straight from the ahb expression parser: its condition expressions are still plain text,
+            # so there are no keys to extract yet. Resolve them first (just like for a str).
+            try:
+                tree = AhbExpressionResolverTransformer().transform(tree)
+            except VisitError as visit_err:
+                if isinstance(visit_err.orig_exc, SyntaxError):
+                    return False, str(visit_err.orig_exc)
+                raise visit_err.orig_exc
     else:
         raise ValueError(f"{expression_or_tree} is neither a string nor a Tree")
     categorized_key_extract = extract_categorized_keys_from_tree(tree, sanitize=True)
